@@ -190,7 +190,9 @@ M("M_C08_f", ["C08"], "cotengra/hyperoptimizers/hyper.py",
 M("M_C08_g", ["C08"], "cotengra/scoring.py",
   "        ensure_basic_quantities_are_computed(trial)\n        tree = trial[\"tree\"]\n        return math.log2(tree.combo_cost(factor=self.factor, combine=max))",
   "        tree = trial[\"tree\"]\n        return math.log2(tree.combo_cost(factor=self.factor, combine=max))",
-  "revert of the limit-objective fix", ["tests/test_optimizers.py"])
+  "harmless since fix cc45b0a: ComputeScore now fills in flops/write/size for every scored trial, so the limit objective's own "
+  "call (fix c87e4ea) is redundant for HyperOptimizer; reverting it changes nothing observable (was CAUGHT before cc45b0a)",
+  ["tests/test_optimizers.py"], harmless=True)
 # widened C08 (reading the record back, second search, compressed optimizer, objective instances)
 M("M_C08_w1", ["C08"], "cotengra/hyperoptimizers/hyper.py",
   "                self.method_choices,\n                self.costs_size,\n                self.costs_flops,\n                self.costs_write,\n                self.param_choices,",
